@@ -41,6 +41,18 @@ CLAIMS = {
   text="quality_profile_percentage, both verdicts and the summary styles are re-translated from the source on every run (Gen/Logic.lean) and proved (Props/C19.lean) for all non-negative profiles: shown percentages are integers in 0..100 summing to 100, within one point (easy/verbose: two) of the true share, a category above 0.001 % never shows 0, verdict necessary iff unmaintainable > 0 or hard > 20, identical in both formats - with the rounding formula read exactly. The float evaluation is tied by correspondence on all profiles up to a total, adversarial near-ties and random large profiles (+1 tolerance at exact ties).",
   note="Partial: IEEE-754 evaluation of the formula is not proved equal to the exact reading; it is checked on every explored profile. Trusted: Lean kernel; translator/logic.py; harness.",
   design="6/C19", technique="Lean 4 proof over source-regenerated arithmetic (exact reading) + correspondence for the float link"),
+ "C03": dict(
+  text="Kernel-checked theorems (Props/C03.lean): for each of the 7 shipped languages (patterns regenerated from the running code) and EVERY token list, the model of the whole pipeline (lex filtering, header extraction with the token-regex engine, brace / indentation blocks, scope building, folding, counting, spans) returns measurements - no index, ambiguity, StopIteration, list.index, min([]) or fuel error is reachable; all model functions are total. The model is tied to the code on the malformed stream. Runtime behaviour the model cannot exhibit (Pygments, decoding, path arithmetic, the CLI) is exercised directly: in-process analysis of every malformed input and subprocess runs of `python -m codelimit scan|check` on trees of such files named in every way.",
+  note="Partial for the runtime: termination/exceptions of Pygments, OS errors and the interpreter's recursion limit are contracts exercised by the malformed stream and CLI runs, not proved.",
+  design="6/C03", technique="Lean 4 proof (totality of the pipeline model for all token lists) + malformed-stream correspondence + CLI runs"),
+ "C05": dict(
+  text="Kernel-checked theorems (Props/C05.lean) for every shipped language and every token list with increasing positions (provided by C16): each measurement starts at a code token, ends just past a code token not before it, carries the text of a Name token inside its span, has 1 <= length <= code-bearing lines of the span; measurements are in source order with distinct starts (header starts proved distinct for all languages incl. the two-pattern ones); the file total is the sum. Tie + oracle: model vs real and the property stated directly on the real output, on the malformed stream, canonical programs and the corpus.",
+  note="Trusted: Lean kernel; harness. The hypothesis of increasing positions is needed only for Python (kernel-checked witness) and is what C16 provides.",
+  design="6/C05", technique="Lean 4 proof (index-bound invariants through the pipeline model) + correspondence with a direct oracle"),
+ "C18": dict(
+  text="Kernel-checked theorems (Props/C18.lean) about a model of the text and Markdown overview, the Delta classes and both findings printers (decisions taken from the source-regenerated Gen/Logic.lean): rows show exactly the stored figures, ordered by LOC (stable), footer/Totals = sums and present iff more than one language; with a previous report every figure of a language present in both, and every total, is annotated with current-previous iff they differ, identically in both formats; findings = length > 30, longest first, first 10 unless full, omitted = total-10. Correspondence: cells of the real ScanResultTable, console lines, Markdown rows and findings lines of real Report objects vs the model; oracle = the property on stored numbers.",
+  note="Trusted: Lean kernel; translator/logic.py; harness (rich internals for cells). Locale: C (no thousands separators), asserted at run time.",
+  design="6/C18", technique="Lean 4 proof over a cell-level rendering model using source-regenerated decisions + correspondence"),
 }
 
 NA_REASON = "check under construction in this round (see DESIGN.md section 6); not yet claimed"
